@@ -20,6 +20,9 @@ type C18Case struct {
 	Base   ScalarCase  `json:"base"`
 	Others [][2]string `json:"url_others,omitempty"`
 	Pos    int         `json:"url_pos,omitempty"`
+	// UrlTwice: the URL carriers hold our parameter twice, with the same value (each occurrence is
+	// judged: the URL reports every clause twice, and the first half must agree with the other carriers)
+	UrlTwice bool `json:"url_twice,omitempty"`
 }
 
 func genC18Case(t *rapid.T) *C18Case {
@@ -126,6 +129,7 @@ func genC18Case(t *rapid.T) *C18Case {
 		c.Others = append(c.Others, [2]string{fmt.Sprintf("p%d", i), rapid.SampledFrom([]string{"", "1", "abc", "测试"}).Draw(t, "other")})
 	}
 	c.Pos = rapid.IntRange(0, k).Draw(t, "urlPos")
+	c.UrlTwice = rapid.IntRange(0, 5).Draw(t, "urlTwice") == 3
 	finishScalar(t, b)
 	if rapid.IntRange(0, 7).Draw(t, "callFn") == 0 {
 		// a function given for the call under a name the validators implement themselves (or a built-in's name):
@@ -181,8 +185,15 @@ func checkC18(c *C18Case) (msg string, skipped string, nviol, ncarriers int) {
 	for _, car := range Carriers {
 		sc := c.Base
 		sc.Carrier = car
+		twice := false
 		if car == "url" || car == "urlenc" {
 			sc.Others, sc.Pos = c.Others, c.Pos
+			if c.UrlTwice && sc.T.K == "string" && sc.T.Name == "" {
+				sc.Again, twice = []string{sc.Val.S}, true
+				if sc.Val.SB != nil {
+					sc.Again = []string{string(sc.Val.SB)}
+				}
+			}
 		}
 		if !sc.carrierOK() {
 			continue
@@ -196,7 +207,7 @@ func checkC18(c *C18Case) (msg string, skipped string, nviol, ncarriers int) {
 			return fmt.Sprintf("carrier %s: panic: %v", car, panicked), "", 0, 0
 		}
 		nviol = res.Violations
-		if car == "listmap" {
+		if car == "listmap" || twice {
 			nviol /= 2
 		}
 		ncarriers++
@@ -219,6 +230,16 @@ func checkC18(c *C18Case) (msg string, skipped string, nviol, ncarriers int) {
 		if car == "listmap" { // the list holds the map twice
 			var half []string
 			for i := 0; i < len(norm); i += 2 {
+				half = append(half, norm[i])
+			}
+			norm = half
+		}
+		if twice { // the query holds the parameter twice: every clause is reported twice (norm is sorted)
+			var half []string
+			for i := 0; i < len(norm); i += 2 {
+				if i+1 >= len(norm) || norm[i] != norm[i+1] {
+					return fmt.Sprintf("carrier %s: the two occurrences of the parameter are judged differently: %q", car, norm), "", nviol, ncarriers
+				}
 				half = append(half, norm[i])
 			}
 			norm = half
@@ -251,6 +272,9 @@ func TestC18(t *testing.T) {
 		}
 		ev.Class("kind=" + c.Base.T.K)
 		ev.Class(fmt.Sprintf("carriers=%d", ncar))
+		if c.UrlTwice {
+			ev.Class("url-parameter-occurs-twice")
+		}
 		ev.Class(fmt.Sprintf("violated=%s", bucket(nviol)))
 		b, _ := jsonMarshal(c)
 		ev.Case(string(b), len(c.Base.Rules) >= 2 && nviol >= 1, func() interface{} { return c })
